@@ -44,10 +44,17 @@ fn bool_vector(ctx: &Ctx, draws: u64) -> SubReport {
     sizes.extend([100, 1000, -1, -5, i32::MIN]);
     let mut sparsities: Vec<f32> = (0..=100).map(|k| k as f32 / 100.0).collect();
     sparsities.extend([-0.1, 1.1, f32::INFINITY, f32::NEG_INFINITY, f32::NAN, 0.005, 0.995, 0.333, 1.0 + 1e-6, -1e-6]);
-    let work: Vec<(i32, f32)> = sizes.iter().flat_map(|n| sparsities.iter().map(move |s| (*n, *s))).collect();
+    let mut work: Vec<(i32, f32)> = sizes.iter().flat_map(|n| sparsities.iter().map(move |s| (*n, *s))).collect();
+    // long vectors (beyond 2^16 elements), a few sparsities, two draws each
+    for n in [65_536, 65_537, 100_000] {
+        for s in [0.0f32, 0.005, 0.25, 0.5, 0.75, 1.0, 1.5] {
+            work.push((n, s));
+        }
+    }
     let per = (draws / 20).max(2);
     let mut rep = par_map(ctx, "random_bool_vector", work.len() as u64, |wi, rep| {
         let (size, s) = work[wi as usize];
+        let per = if size > 1000 { 2 } else { per };
         let case = json!({"kind": "c13", "fn": "random_bool_vector", "size": size, "sparsity": fjson(s)});
         journal(&case);
         for _ in 0..per {
@@ -141,12 +148,13 @@ fn position_coverage(ctx: &Ctx) -> SubReport {
 }
 
 fn int_vector(ctx: &Ctx, draws: u64) -> SubReport {
-    let sizes = [0i32, 1, 2, 7, 32, 1000, -1, i32::MIN];
+    let sizes = [0i32, 1, 2, 7, 32, 1000, 65_536, 65_537, 100_000, -1, i32::MIN];
     let pairs: Vec<(i32, i32)> = vec![(0, 1), (0, 10), (-5, 5), (3, 3), (5, 3), (i32::MIN, i32::MAX), (i32::MAX - 1, i32::MAX), (i32::MIN, i32::MIN + 1), (i32::MAX, i32::MIN), (0, 0), (-1, 0), (7, 8)];
     let work: Vec<(i32, (i32, i32))> = sizes.iter().flat_map(|n| pairs.iter().map(move |p| (*n, *p))).collect();
     let per = (draws / 20).max(2);
     let mut rep = par_map(ctx, "random_int_vector", work.len() as u64, |wi, rep| {
         let (size, (min, max)) = work[wi as usize];
+        let per = if size > 1000 { 2 } else { per };
         let case = json!({"kind": "c13", "fn": "random_int_vector", "size": size, "min": min, "max": max});
         journal(&case);
         for _ in 0..per {
@@ -193,7 +201,7 @@ fn int_vector(ctx: &Ctx, draws: u64) -> SubReport {
 }
 
 fn float_vector(ctx: &Ctx, draws: u64) -> SubReport {
-    let sizes = [0i32, 1, 5, 32, 1000, -1, i32::MIN];
+    let sizes = [0i32, 1, 5, 32, 1000, 65_536, 65_537, 100_000, -1, i32::MIN];
     let means = [0.0f32, -3.5, 1e30, f32::NAN, f32::INFINITY];
     let sds = [0.0f32, 1.0, 0.001, 1e30, -1.0, -0.0, f32::NAN, f32::INFINITY, f32::NEG_INFINITY, f32::MIN_POSITIVE];
     let mut work = vec![];
@@ -207,6 +215,7 @@ fn float_vector(ctx: &Ctx, draws: u64) -> SubReport {
     let per = (draws / 20).max(2);
     let mut rep = par_map(ctx, "random_float_vector", work.len() as u64, |wi, rep| {
         let (size, mean, sd) = work[wi as usize];
+        let per = if size > 1000 { 2 } else { per };
         let case = json!({"kind": "c13", "fn": "random_float_vector", "size": size, "mean": fjson(mean), "stddev": fjson(sd)});
         journal(&case);
         for _ in 0..per {
@@ -428,7 +437,7 @@ pub fn run(ctx: &Ctx) -> PropReport {
         "INV on every draw: length = size, elements in [min,max), TRUE count = the documented rounding of sparsity x size (complemented above 0.5), invalid parameters give no vector, instruction operands consumed and nothing else touched, RANDBOUNDNAME in the binding keys; never a panic (hangs are caught by the supervising parent). Coverage INV: every position of a bit vector becomes TRUE within 700 draws (false alarm < 1e-13).",
     );
     rep.assumptions.push("documented rounding of BOOLVECTOR.RAND: share of non-default bits rounded to two decimals, count = truncated product; when the exact product is within 0.2 of an integer the neighbouring count is accepted too (float truncation)".into());
-    let d = ctx.tier.pick(5000u64, 200_000u64);
+    let d = ctx.tier.pick(20_000u64, 200_000u64);
     rep.push(bool_vector(ctx, d));
     rep.push(position_coverage(ctx));
     rep.push(int_vector(ctx, d));
